@@ -3,7 +3,7 @@ open SteelVerif.C15
 #print axioms step_inv
 #print axioms runG_inv
 #print axioms scan_exclusive_partial
-#print axioms scan_exclusive_partial'
+#print axioms scan_exclusive_partial_pointwise
 #print axioms exitRace_violates
 #print axioms not_scan_exclusive
 #print axioms exitRace_guard
@@ -13,3 +13,8 @@ open SteelVerif.C15
 #print axioms not_env_coherent
 #print axioms goodRound_scans
 #print axioms goodRound_completes
+#print axioms scan_exclusive_partial_code
+#print axioms env_coherent_partial_code
+#print axioms not_scan_exclusive_code
+#print axioms not_env_coherent_code
+#print axioms goodRound_completes_code
